@@ -107,6 +107,10 @@ def run(tier):
 
 
 def replay(path):
+    from .common import stage_cargo
+    with Lock():
+        stage_cargo("c20")
+    build_cli()
     r = json.load(open(path))
     cf = r.get("case_file")
     if r.get("case"):
